@@ -11,7 +11,7 @@ def run(prop, tier):
     p, d = (2, 1) if tier == "quick" else (2, 2)
     jobs = []
     # (msglen, sendchunk, recvbuf, client blocking, server blocking, family) against 8-byte KSIM stream buffers
-    streams = [(9, 3, 4, 1, 1, 4), (9, 9, 16, 1, 1, 6), (20, 20, 16, 1, 1, 4), (9, 3, 1, 0, 1, 4), (9, 9, 4, 1, 0, 6), (7, 1, 16, 0, 0, 4), (1, 1, 1, 1, 1, 4), (8, 8, 4, 1, 1, 4), (9, 3, 4, 1, 1, 4, 100), (9, 9, 4, 0, 1, 6, 70)]
+    streams = [(9, 3, 4, 1, 1, 4), (9, 9, 16, 1, 1, 6), (20, 20, 16, 1, 1, 4), (9, 3, 1, 0, 1, 4), (9, 9, 4, 1, 0, 6), (7, 1, 16, 0, 0, 4), (1, 1, 1, 1, 1, 4), (8, 8, 4, 1, 1, 4), (9, 3, 4, 1, 1, 4, 100), (9, 9, 4, 0, 1, 6, 70), (9, 3, 4, 1, 1, 4, 0, 1)]
     if tier == "thorough":
         streams += [(20, 3, 4, 0, 0, 6), (17, 7, 16, 1, 0, 4), (9, 3, 4, 0, 0, 4)]
     for s in streams:
@@ -20,6 +20,7 @@ def run(prop, tier):
         for f in (4, 6):
             jobs.append(dict(src=SRC, ksim=True, args=["dgram", "-p", p, "-d", d, "--", rb, f]))
     jobs.append(dict(src=SRC, ksim=True, args=["peergone", "-p", p + 1, "-d", d]))
+    jobs.append(dict(src=SRC, ksim=True, args=["halfclose", "-p", p, "-d", d]))
     acc = mcsched.run_jobs(prop, tier, jobs, extra_props=("SCHED", "RACE", "UAF", "POSIX", "MEM", "KSIM"))
     cov = mcsched.coverage(acc, "client and server threads, each with its own PSocket, over the in-memory socket layer KSIM (8-byte stream buffers, 2-datagram queues, so short writes and EAGAIN arise on their own): "
                                 "all interleavings with <= %d preemptions x all patterns of <= %d deviations (EINTR at connect/accept/send/sendto/recv/recvfrom/poll, spurious EAGAIN, extra-short transfer); "
